@@ -315,8 +315,11 @@ def run_candidates(pkt, name, start):
 
 class Parse:
     """one run of the reference parser over `raw`"""
-    def __init__(self, fam, raw, offset=0):
+    def __init__(self, fam, raw, offset=0, wrap=False):
         self.fam, self.raw, self.offset = fam, raw, offset
+        # wrap=True: a cursor before index 0 is followed with Python's slicing semantics instead of being declared unspecified.
+        # Never used as an oracle - only by differential checks (C03) as a bound on what the implementation will do.
+        self.wrap = wrap
         self.reads = []      # (path, start, end, kind) value-bearing reads, kind in int|data|delim|bits
         self.hi = offset     # furthest cursor position reached
         self.regex_end_touch = False   # a regex match / read-to-end touched the end of raw
@@ -421,9 +424,9 @@ class Parse:
             new = cur + arg
         else:
             new = {"begins": 0, "current-offset": cur, "innermost-pkt": inner}[ref] + arg
-        if new < 0:
+        if new < 0 and not self.wrap:
             raise Unspecified("cursor before the start of the data")
-        if new > len(self.raw) + 256:
+        if new > len(self.raw) + 256 or new < -len(self.raw) - 256:
             raise Unspecified("cursor moved far beyond the end of the data")
         self.moves.append((mv["kind"], ref, cur, new, inner))
         return new
@@ -432,6 +435,10 @@ class Parse:
         return ModelError(kind, msg, None, None, None)
 
     def need(self, cur, n):
+        if cur < 0:
+            if len(self.raw[cur:cur + n]) != n:
+                raise self.err("short", "slice at negative cursor %d is short" % cur)
+            return
         if n > 0 and cur + n > len(self.raw):
             raise self.err("short", "need %d bytes at %d, have %d" % (n, cur, max(0, len(self.raw) - cur)))
 
@@ -587,8 +594,8 @@ class Parse:
             self.reads.append((path, cur, cur + n, "data"))
             return cur + n
         W = opts.get("search_buffer_length")
-        limit = len(raw) if not W else min(len(raw), cur + W)
-        window = raw[cur:limit] if cur <= len(raw) else b""
+        window = raw[cur:cur + W] if W else raw[cur:]
+        limit = cur + len(window)
         if m == "marker":
             mk = sz[1]
             pos = -1
@@ -631,9 +638,9 @@ class Parse:
         raise ValueError(sz)
 
 
-def parse(fam, raw, offset=0):
+def parse(fam, raw, offset=0, wrap=False):
     """-> (values, end, Parse)   or raises ModelError / Unspecified"""
-    p = Parse(fam, raw, offset)
+    p = Parse(fam, raw, offset, wrap)
     vals, end = p.run()
     return vals, end, p
 
